@@ -16,13 +16,14 @@ import (
 // C16 — Encoders are deterministic and all their variants agree.
 
 type c16Case struct {
-	Kind string          `json:"kind"` // map | mapseq | maps
-	Xml  string          `json:"xml,omitempty"`
-	Json json.RawMessage `json:"json,omitempty"`
-	List []string        `json:"xml_list,omitempty"`
-	Enc  string          `json:"encoder,omitempty"`
-	Pol  int             `json:"order_policy"`
-	Via  string          `json:"mapseq_rebuilt_via,omitempty"` // "json" | "json-number": the MapSeq went through Json() and NewMapJson (with JsonUseNumber)
+	Kind    string          `json:"kind"` // map | mapseq | maps
+	Xml     string          `json:"xml,omitempty"`
+	Json    json.RawMessage `json:"json,omitempty"`
+	List    []string        `json:"xml_list,omitempty"`
+	Enc     string          `json:"encoder,omitempty"`
+	Pol     int             `json:"order_policy"`
+	GoEmpty bool            `json:"xml_go_empty_elem_syntax,omitempty"` // XmlGoEmptyElemSyntax() in force
+	Via     string          `json:"mapseq_rebuilt_via,omitempty"`       // "json" | "json-number": the MapSeq went through Json() and NewMapJson (with JsonUseNumber)
 }
 
 func init() {
@@ -32,6 +33,11 @@ func init() {
 		resetOptions()
 		mxj.XMLEscapeChars(true)
 		src := c16Source{kind: k.Kind, xml: k.Xml, js: string(k.Json), list: k.List, via: k.Via}
+		if k.GoEmpty {
+			mxj.XmlGoEmptyElemSyntax()
+			c16GoEmpty = true
+			defer func() { c16GoEmpty = false }()
+		}
 		if k.Kind == "odd-root" {
 			c16OddRoot(c, string(k.Json))
 		} else if k.Kind == "sinks" {
@@ -55,12 +61,15 @@ type c16Source struct {
 }
 
 func (s c16Source) cas() c16Case {
-	k := c16Case{Kind: s.kind, Xml: s.xml, List: s.list, Pol: rt.OrderPolicy, Via: s.via}
+	k := c16Case{Kind: s.kind, Xml: s.xml, List: s.list, Pol: rt.OrderPolicy, Via: s.via, GoEmpty: c16GoEmpty}
 	if s.js != "" {
 		k.Json = json.RawMessage(s.js)
 	}
 	return k
 }
+
+// c16GoEmpty: XmlGoEmptyElemSyntax() is in force for the current case.
+var c16GoEmpty bool
 
 // sinks
 var errSink = errors.New("sink failed")
@@ -761,7 +770,7 @@ func c16FullDevice(c *Ctx, xmlDoc string) {
 func c16Run(c *Ctx) {
 	mustBeDefault(c)
 	mxj.XMLEscapeChars(true)
-	c.S.Rule = "cases = source value x every encoder entry point: Maps decoded from the U-XML documents (<= N elements, <= 1-2 decorations) and JSON-shaped Maps (<= M nodes, keys {a,b,-x,#text}), MapSeqs decoded from the same documents, Maps whose keys differ only in case, by a prefix or by a number read lexically, Maps rooted at a special key, the nil Map and the empty Map, and lists of 1..3 Maps; entry points Xml, XmlIndent, XmlWriter, XmlIndentWriter (Map and MapSeq), Json, JsonIndent, JsonWriter[Raw], JsonIndentWriter[Raw] (default and safe), StringIndent, Maps.XmlString[Indent], Maps.JsonString[Indent], the four ...File writers; indent/prefix pairs over blanks; sinks accept-all, fail-at-once, short-write, and fail-after-k-bytes for every k (then accepting again). Each entry point is executed under ascending and descending map-iteration order, twice in a row, and under every sequence of <= B deviations from the sorted order at every range-over-map inside the encoder (E-choice). Oracle: byte-identical output in all executions; attributes and child elements ascending; indented = compact up to whitespace-only character data; Writer/Raw/File forms = byte forms; sink errors returned, what reached a failing sink is exactly a prefix of the full output and nothing is written after the failure, and the Raw forms still return the whole encoding; Maps forms = concatenation. non-trivial = source encoded by every entry point."
+	c.S.Rule = "(the XML documents of up to 45 bytes again under XmlGoEmptyElemSyntax, sorted order) cases = source value x every encoder entry point: Maps decoded from the U-XML documents (<= N elements, <= 1-2 decorations) and JSON-shaped Maps (<= M nodes, keys {a,b,-x,#text}), MapSeqs decoded from the same documents, Maps whose keys differ only in case, by a prefix or by a number read lexically, Maps rooted at a special key, the nil Map and the empty Map, and lists of 1..3 Maps; entry points Xml, XmlIndent, XmlWriter, XmlIndentWriter (Map and MapSeq), Json, JsonIndent, JsonWriter[Raw], JsonIndentWriter[Raw] (default and safe), StringIndent, Maps.XmlString[Indent], Maps.JsonString[Indent], the four ...File writers; indent/prefix pairs over blanks; sinks accept-all, fail-at-once, short-write, and fail-after-k-bytes for every k (then accepting again). Each entry point is executed under ascending and descending map-iteration order, twice in a row, and under every sequence of <= B deviations from the sorted order at every range-over-map inside the encoder (E-choice). Oracle: byte-identical output in all executions; attributes and child elements ascending; indented = compact up to whitespace-only character data; Writer/Raw/File forms = byte forms; sink errors returned, what reached a failing sink is exactly a prefix of the full output and nothing is written after the failure, and the Raw forms still return the whole encoding; Maps forms = concatenation. non-trivial = source encoded by every entry point."
 	c.S.Assumptions = []string{"gob output is excluded from the determinism clause (encoding/gob encodes maps in iteration order by design; the property names XML and JSON)", "runtime hash order is replaced by the owned order; a free-running pass on the uninstrumented build is supplementary"}
 	n1, nj, b := 3, 4, 2
 	if c.Thorough {
@@ -816,6 +825,22 @@ func c16Run(c *Ctx) {
 			c16FullDevice(c, d)
 		}
 	}
+	// the variants agree under the other empty-element syntax as well (documents of <= 3 elements, order deviation bound 0)
+	mxj.XmlGoEmptyElemSyntax()
+	c16GoEmpty = true
+	for _, d := range docs {
+		if len(d) > 45 || !c.Mine() {
+			continue
+		}
+		c.S.States++
+		c.S.Evaluations++
+		c16Explore(c, c16Source{kind: "map", xml: d}, 0, false)
+		if tree, err := parseXElem([]byte(d)); err == nil && c04InDomain(tree) {
+			c16Explore(c, c16Source{kind: "mapseq", xml: d}, 0, false)
+		}
+	}
+	mxj.XmlDefaultEmptyElemSyntax()
+	c16GoEmpty = false
 	g := newGen(GenP{Keys: []string{"a", "b", "-x", "#text"}, MaxList: 3, MaxKeys: 3, EmptyList: true, EmptyMap: true, ListInList: false, Leaves: []interface{}{"s", "<&>", 1.5, nullLeaf{}}})
 	g.rootMaps(nj, func(t *T) {
 		probe := inst(t, nil)
